@@ -72,10 +72,16 @@ def _work(task):
         # Output contract on Result.temp_variables: if the rule hands out result temporaries, renaming them to a user
         # variable (what compile_assign does for `(setv x FORM)` / `(setx x FORM)`) must preserve the meaning.
         if out.result.temp_variables and case.wrap:
-            for w in ("setv", "setx"):
+            for w in ("setv", "setx", "setv of a let-bound variable"):
                 toks2 = sx.tokens(sv, **case.tok_kw)
                 inner = case.builder(*toks2)
-                wform = let_wrap(sx.E(sx.S(w), sx.S("hv_x"), inner), toks2, sv)
+                if w == "setv of a let-bound variable":
+                    # the assignment target is itself renamed by an enclosing let: every use of the renamed temporaries
+                    # (stores and the loads of a short-circuit test alike) must follow
+                    wform = let_wrap(sx.E(sx.S("let"), sx.List([sx.S("hv_x"), sx.Tok("hv_init", "E", line=1)]),
+                                          sx.E(sx.S("setv"), sx.S("hv_x"), inner), sx.S("hv_x")), toks2, sv)
+                else:
+                    wform = let_wrap(sx.E(sx.S(w), sx.S("hv_x"), inner), toks2, sv)
                 o2 = sx.run_rule(wform, scope_ctx=case.scope)
                 if not o2.ok:
                     continue
